@@ -85,7 +85,7 @@ class Frame:
         else:
             misalign = self.stacksize % alignment
             if misalign:
-                self.stacksize += size - misalign
+                self.stacksize += alignment - misalign
             offset = self.stacksize
             self.stacksize += size
         location = StackLocation(offset, size)
